@@ -242,9 +242,9 @@ def gwEntries (u : Identity) : Headers :=
   [(hImpUser, [u.name])] ++ u.groups.map (fun g => (hImpGroup, [g])) ++
   u.extra.flatMap (fun e => e.2.map (fun v => (canonicalKey (hImpExtraPrefix ++ headerKeyEscape e.1), [v])))
 
-theorem wrapRequest_eq (h : Headers) (u : Identity) (hu : hget h hImpUser = []) :
-    wrapRequest h u = hdel (delImpersonate h) hImpUser ++ gwEntries u := by
-  simp [wrapRequest, hu, hset, canonicalKey_hImpUser, addGroups_eq, addExtras_eq, gwEntries]
+theorem wrapHeaders_eq (h : Headers) (u : Identity) (hu : hget h hImpUser = []) :
+    wrapHeaders h u = hdel (delImpersonate h) hImpUser ++ gwEntries u := by
+  simp [wrapHeaders, hu, hset, canonicalKey_hImpUser, addGroups_eq, addExtras_eq, gwEntries]
 
 /-- the name under which an extra key travels -/
 theorem extraName_eq (k : Str) :
@@ -335,7 +335,7 @@ theorem values_send_gw_authorization (up : Bool) (u : Identity) :
 theorem wrap_values (token : Str) (up : Bool) (h1 : Headers) (u : Identity)
     (I1 : ∀ e ∈ h1, canonicalKey e.1 = e.1) (I2 : ∀ e ∈ h1, e.1 ≠ hAuthorization)
     (I3 : hget h1 hImpUser = []) (n : Str) (hn : isIdentityName n = true) :
-    values (sendOver up (wrapRequest (if up then h1 else bearerAuth token h1) u)) n =
+    values (sendOver up (wrapHeaders (if up then h1 else bearerAuth token h1) u)) n =
       values (sendOver up (gatewayHeaders token up u)) n := by
   have hA : values h1 hAuthorization = [] := values_nil_of_forall _ _ I2
   have hb : bearerAuth token h1 = hdel h1 hAuthorization ++ [(hAuthorization, [bearerPrefix ++ token])] := by
@@ -354,7 +354,7 @@ theorem wrap_values (token : Str) (up : Bool) (h1 : Headers) (u : Identity)
         decide
       simpa [hget, hb, values_append, this] using I3
     · simpa using I3
-  rw [wrapRequest_eq _ _ hu2, sendOver_append, values_append, send_gwEntries, gatewayHeaders_eq, sendOver_append, values_append]
+  rw [wrapHeaders_eq _ _ hu2, sendOver_append, values_append, send_gwEntries, gatewayHeaders_eq, sendOver_append, values_append]
   -- what is left of the client's headers
   have hC : ∀ e ∈ hdel (delImpersonate (if up then h1 else bearerAuth token h1)) hImpUser,
       hasPrefix (canonicalKey e.1) hImpPrefix = false ∧ (e ∈ h1 ∨ (up = false ∧ e = (hAuthorization, [bearerPrefix ++ token]))) := by
@@ -501,7 +501,7 @@ theorem values_send_const (up : Bool) (N : Str) (l : List Str) (n : Str) :
 theorem decode_wrapped (token : Str) (up : Bool) (h1 : Headers) (u : Identity)
     (I1 : ∀ e ∈ h1, canonicalKey e.1 = e.1) (I2 : ∀ e ∈ h1, e.1 ≠ hAuthorization)
     (I3 : hget h1 hImpUser = []) :
-    let recv := sendOver up (wrapRequest (if up then h1 else bearerAuth token h1) u)
+    let recv := sendOver up (wrapHeaders (if up then h1 else bearerAuth token h1) u)
     values recv hImpUser = [carried up u.name] ∧ values recv hImpGroup = u.groups.map (carried up) ∧
     ∀ k, values (decodeExtras recv) k = values (u.extra.map (fun e => (e.1, e.2.map (carried up)))) k := by
   intro recv
@@ -551,8 +551,8 @@ theorem decode_wrapped (token : Str) (up : Bool) (h1 : Headers) (u : Identity)
           decide
         simpa [hget, hb, values_append, this, values_del_ne _ _ _ (by decide : hImpUser ≠ hAuthorization)] using I3
       · simpa using I3
-    show values (decodeExtras (sendOver up (wrapRequest _ u))) k = _
-    rw [wrapRequest_eq _ _ hu2, sendOver_append, decodeExtras_append]
+    show values (decodeExtras (sendOver up (wrapHeaders _ u))) k = _
+    rw [wrapHeaders_eq _ _ hu2, sendOver_append, decodeExtras_append]
     have hC : decodeExtras (sendOver up (hdel (delImpersonate (if up then h1 else bearerAuth token h1)) hImpUser)) = [] := by
       apply decodeExtras_nil
       intro e he
@@ -924,6 +924,13 @@ theorem impersonate_spec (raw : List (Str × Str)) (hv : rawValid raw = true) (u
 
 /-! ## the whole path -/
 
+theorem map_id_of_forall {α : Type} (l : List α) (f : α → α) (h : ∀ x ∈ l, f x = x) : l.map f = l := by
+  induction l with
+  | nil => rfl
+  | cons x l ih => simp [h x (by simp), ih (fun y hy => h y (by simp [hy]))]
+
+
+
 theorem parsed_canonical (raw : List (Str × Str)) : ∀ e ∈ parsed raw, canonicalKey e.1 = e.1 := by
   intro e he
   simp only [parsed, List.mem_map] at he
@@ -942,59 +949,160 @@ theorem clearImpersonation_user (h : Headers) : hget (clearImpersonation h) hImp
   simp only [clearImpersonation, hdel, List.mem_filter] at he
   simpa using he.1.1.2
 
+theorem hget_h2 (token : Str) (up : Bool) (h1 : Headers) (I2 : ∀ e ∈ h1, e.1 ≠ hAuthorization)
+    (I3 : hget h1 hImpUser = []) : hget (if up then h1 else bearerAuth token h1) hImpUser = [] := by
+  have hA : values h1 hAuthorization = [] := values_nil_of_forall _ _ I2
+  cases up
+  · have hb : bearerAuth token h1 = hdel h1 hAuthorization ++ [(hAuthorization, [bearerPrefix ++ token])] := by
+      simp [bearerAuth, get_nil_of_values hA, hset, canonicalKey_hAuthorization]
+    have : values [(hAuthorization, [bearerPrefix ++ token])] hImpUser = [] := by
+      apply values_nil_of_forall; intro e he; simp at he; subst he
+      show hAuthorization ≠ hImpUser
+      decide
+    simpa [hget, hb, values_append, this, values_del_ne _ _ _ (by decide : hImpUser ≠ hAuthorization)] using I3
+  · simpa using I3
+
+/-- the value check is in the source (regenerated fact) -/
+theorem wrap_checks : KG.Gen.C02.wrapRequestChecksValues = true := by decide
+
+/-- `WrapRequest` on a header set without `Impersonate-User`: an error iff the identity has a value a header cannot carry -/
+theorem wrapRequest_eq (h : Headers) (u : Identity) (hu : hget h hImpUser = []) :
+    wrapRequest h u = if checkImpersonationValues u then some (wrapHeaders h u) else none := by
+  simp only [wrapRequest, hu, wrap_checks, Bool.true_and]
+  cases checkImpersonationValues u <;> simp
+
+/-- the transport part in closed form -/
+theorem deliver_eq (token : Str) (up : Bool) (h1 : Headers) (ctx : Identity)
+    (I2 : ∀ e ∈ h1, e.1 ≠ hAuthorization) (I3 : hget h1 hImpUser = []) :
+    deliver token up h1 ctx =
+      if checkImpersonationValues ctx then
+        (let h3 := wrapHeaders (if up then h1 else bearerAuth token h1) ctx
+         if up then (if transportOK (writeUpgrade h3) then .forwarded (sendOver true h3) ctx else .upstreamRefused)
+         else (if transportOK h3 then .forwarded (sendOver false h3) ctx else .transportRefused))
+      else .valueRefused := by
+  simp only [deliver, wrapRequest_eq _ _ (hget_h2 token up h1 I2 I3)]
+  cases checkImpersonationValues ctx <;> simp
+
+theorem deliver_forwarded (token : Str) (up : Bool) (h1 : Headers) (ctx : Identity)
+    (I2 : ∀ e ∈ h1, e.1 ≠ hAuthorization) (I3 : hget h1 hImpUser = []) (recv : Headers) (ctx' : Identity)
+    (h : deliver token up h1 ctx = .forwarded recv ctx') :
+    ctx' = ctx ∧ checkImpersonationValues ctx = true ∧
+      recv = sendOver up (wrapHeaders (if up then h1 else bearerAuth token h1) ctx) := by
+  rw [deliver_eq token up h1 ctx I2 I3] at h
+  cases hc : checkImpersonationValues ctx with
+  | false => simp [hc] at h
+  | true =>
+    simp only [hc, if_true] at h
+    cases up
+    · simp only [Bool.false_eq_true, if_false] at h
+      split at h
+      · simp only [Outcome.forwarded.injEq] at h
+        exact ⟨h.2.symm, rfl, by rw [← h.1]; simp⟩
+      · cases h
+    · simp only [if_true] at h
+      split at h
+      · simp only [Outcome.forwarded.injEq] at h
+        exact ⟨h.2.symm, rfl, by rw [← h.1]; simp⟩
+      · cases h
+
+/-- what the filters hand to the dispatcher, in terms of the specification: for accepted lines and an authenticated client
+    either the gateway answers (500 / 403) or `deliver` runs with a header set without `Authorization`, without
+    `Impersonate-User`, with canonical names, for exactly the identity the specification names -/
+theorem serve_spec (token : Str) (raw : List (Str × Str)) (u : Identity) (az : Attrs → Decision) (up : Bool)
+    (hv : rawValid raw = true) :
+    (∃ s, expected raw u az = .answered s ∧
+      ((s = 500 ∧ serve token raw (some u) az up = .internalError) ∨ (s = 403 ∧ serve token raw (some u) az up = .forbidden))) ∨
+    (∃ ctx h1, expected raw u az = .forward ctx ∧ (∀ e ∈ h1, canonicalKey e.1 = e.1) ∧ (∀ e ∈ h1, e.1 ≠ hAuthorization) ∧
+      hget h1 hImpUser = [] ∧ serve token raw (some u) az up = deliver token up h1 ctx) := by
+  have hS1 : ∀ e ∈ authnStrip (parsed raw), canonicalKey e.1 = e.1 := by
+    intro e he; simp only [authnStrip, hdel, List.mem_filter] at he; exact parsed_canonical raw e he.1
+  have hS2 : ∀ e ∈ authnStrip (parsed raw), e.1 ≠ hAuthorization := by
+    intro e he; simp only [authnStrip, hdel, List.mem_filter] at he; simpa using he.2
+  simp only [serve, parse_eq, hv, if_true, impersonate_spec raw hv u az, expected]
+  by_cases hr : impersonationRequested raw = true
+  · by_cases hm : malformed raw = true
+    · exact Or.inl ⟨500, by simp [hr, hm]⟩
+    · by_cases ha : allAllowed az raw = true
+      · refine Or.inr ⟨requestedIdentity raw, clearImpersonation (authnStrip (parsed raw)), by simp [hr, hm, ha],
+          fun e he => hS1 e (clearImpersonation_sub _ e he), fun e he => hS2 e (clearImpersonation_sub _ e he),
+          clearImpersonation_user _, by simp [hr, hm, ha]⟩
+      · exact Or.inl ⟨403, by simp [hr, hm, ha]⟩
+  · refine Or.inr ⟨u, authnStrip (parsed raw), by simp [hr], hS1, hS2, ?_, by simp [hr]⟩
+    rw [hget_strip_user raw hv]
+    simp only [impersonationRequested, Bool.or_eq_true, not_or] at hr
+    simpa using hr.1.1
+
 /-- Everything that can be said about a forwarded request: the client's lines were accepted, the client was
-    authenticated, the specification says "forward as `ctx`", and what arrives is what `WrapRequest` makes of a header
-    set without `Authorization`, without `Impersonate-User`, with canonical names. -/
+    authenticated, the specification says "forward as `ctx`", every value of `ctx` survives a header, and what arrives is
+    what `WrapRequest` makes of a header set without `Authorization`, without `Impersonate-User`, with canonical names. -/
 theorem serve_forwarded (token : Str) (raw : List (Str × Str)) (auth : Option Identity) (az : Attrs → Decision)
     (up : Bool) (recv : Headers) (ctx : Identity) (h : serve token raw auth az up = .forwarded recv ctx) :
     ∃ u h1, rawValid raw = true ∧ auth = some u ∧ expected raw u az = .forward ctx ∧
       (∀ e ∈ h1, canonicalKey e.1 = e.1) ∧ (∀ e ∈ h1, e.1 ≠ hAuthorization) ∧ hget h1 hImpUser = [] ∧
-      recv = sendOver up (wrapRequest (if up then h1 else bearerAuth token h1) ctx) := by
-  simp only [serve, parse_eq] at h
+      checkImpersonationValues ctx = true ∧
+      recv = sendOver up (wrapHeaders (if up then h1 else bearerAuth token h1) ctx) := by
   by_cases hv : rawValid raw = true
-  · simp only [hv, if_true] at h
-    cases auth with
-    | none => simp at h
+  · cases auth with
+    | none => simp [serve, parse_eq, hv] at h
     | some u =>
-      simp only [impersonate_spec raw hv u az] at h
-      have hS1 : ∀ e ∈ authnStrip (parsed raw), canonicalKey e.1 = e.1 := by
-        intro e he; simp only [authnStrip, hdel, List.mem_filter] at he; exact parsed_canonical raw e he.1
-      have hS2 : ∀ e ∈ authnStrip (parsed raw), e.1 ≠ hAuthorization := by
-        intro e he; simp only [authnStrip, hdel, List.mem_filter] at he; simpa using he.2
-      by_cases hr : impersonationRequested raw = true
-      · by_cases hm : malformed raw = true
-        · simp [hr, hm] at h
-        · by_cases ha : allAllowed az raw = true
-          · simp only [hr, hm, ha, Bool.not_true, Bool.false_eq_true, if_false, if_true] at h
-            refine ⟨u, clearImpersonation (authnStrip (parsed raw)), hv, rfl, ?_, ?_, ?_, clearImpersonation_user _, ?_⟩
-            · have : ctx = requestedIdentity raw := by
-                cases up <;> simp only [Bool.false_eq_true, if_false, if_true] at h <;> split at h <;> simp at h <;> exact h.2.symm
-              simp [expected, hr, hm, ha, this]
-            · exact fun e he => hS1 e (clearImpersonation_sub _ e he)
-            · exact fun e he => hS2 e (clearImpersonation_sub _ e he)
-            · cases up <;> simp only [Bool.false_eq_true, if_false, if_true] at h <;> split at h <;> simp at h
-              · rw [← h.1, h.2]; simp
-              · rw [← h.1, h.2]; simp
-          · simp [hr, hm, ha] at h
-      · simp only [hr, Bool.not_false, if_true] at h
-        refine ⟨u, authnStrip (parsed raw), hv, rfl, ?_, hS1, hS2, ?_, ?_⟩
-        · have : ctx = u := by
-            cases up <;> simp only [Bool.false_eq_true, if_false, if_true] at h <;> split at h <;> simp at h <;> exact h.2.symm
-          simp [expected, hr, this]
-        · rw [hget_strip_user raw hv]
-          simp only [impersonationRequested, Bool.or_eq_true, not_or] at hr
-          simpa using hr.1.1
-        · cases up <;> simp only [Bool.false_eq_true, if_false, if_true] at h <;> split at h <;> simp at h
-          · rw [← h.1, h.2]; simp
-          · rw [← h.1, h.2]; simp
-  · simp [hv] at h
+      rcases serve_spec token raw u az up hv with ⟨s, _, ⟨_, hs⟩ | ⟨_, hs⟩⟩ | ⟨ctx0, h1, he, I1, I2, I3, hs⟩
+      · rw [hs] at h; cases h
+      · rw [hs] at h; cases h
+      · rw [hs] at h
+        obtain ⟨hc, hk, hr⟩ := deliver_forwarded token up h1 ctx0 I2 I3 recv ctx h
+        subst hc
+        exact ⟨u, h1, hv, rfl, he, I1, I2, I3, hk, hr⟩
+  · simp [serve, parse_eq, hv] at h
+
+/-! ## values a header carries -/
+
+theorem dropWhile_of_head {α : Type} (p : α → Bool) (l : List α) (a : α) (h1 : l.head? = some a) (h2 : p a = false) :
+    l.dropWhile p = l := by
+  cases l with
+  | nil => rfl
+  | cons x xs =>
+    simp only [List.head?_cons, Option.some.injEq] at h1
+    subst h1
+    simp [List.dropWhile_cons, h2]
+
+set_option maxRecDepth 100000 in
+theorem ctl_not_newline : ∀ c : UInt8, ((c < 32 && c != 9) || c == 127) = false → (c == 10 || c == 13) = false := by
+  apply forall_u8; decide
+
+/-- a value that survives arrives as it is, on both paths -/
+theorem survives_carried (up : Bool) (v : Str) (h : headerValueSurvives v = true) : carried up v = v := by
+  simp only [headerValueSurvives, Bool.and_eq_true, Bool.not_eq_true', List.all_eq_true] at h
+  obtain ⟨he, hb⟩ := h
+  have hnl : newlineToSpace v = v := by
+    simp only [newlineToSpace]
+    apply map_id_of_forall
+    intro c hc
+    have := hb c hc
+    have hk := ctl_not_newline c this
+    simp [hk]
+  have ht : trimOWS v = v := by
+    cases v with
+    | nil => rfl
+    | cons a w =>
+      cases hl : (a :: w).getLast? with
+      | none => simp at hl
+      | some z =>
+        simp only [List.head?_cons, hl, Bool.or_eq_false_iff] at he
+        have h1 : (a :: w).dropWhile isOWS = a :: w := dropWhile_of_head _ _ a rfl he.1
+        have h2 : ((a :: w).reverse).dropWhile isOWS = (a :: w).reverse :=
+          dropWhile_of_head _ _ z (by rw [List.head?_reverse]; exact hl) he.2
+        simp only [trimOWS, h1, h2, List.reverse_reverse]
+  cases up <;> simp [carried, hnl, ht]
+
+theorem check_valuesCarried (up : Bool) (id : Identity) (h : checkImpersonationValues id = true) :
+    valuesCarried up id = true := by
+  simp only [checkImpersonationValues, Bool.and_eq_true, List.all_eq_true] at h
+  obtain ⟨⟨h1, h2⟩, h3⟩ := h
+  simp only [valuesCarried, Bool.and_eq_true, beq_iff_eq, List.all_eq_true]
+  exact ⟨⟨survives_carried up _ h1, fun g hg => survives_carried up g (h2 g hg)⟩,
+    fun e he v hv => survives_carried up v (h3 e he v hv)⟩
 
 /-! ## small facts used by the property theorems -/
-
-theorem map_id_of_forall {α : Type} (l : List α) (f : α → α) (h : ∀ x ∈ l, f x = x) : l.map f = l := by
-  induction l with
-  | nil => rfl
-  | cons x l ih => simp [h x (by simp), ih (fun y hy => h y (by simp [hy]))]
 
 theorem carryIdentity_id (up : Bool) (id : Identity) (h : valuesCarried up id = true) : carryIdentity up id = id := by
   simp only [valuesCarried, Bool.and_eq_true, beq_iff_eq, List.all_eq_true] at h
